@@ -6,6 +6,9 @@ set -u
 # The tree this script lives in (/verif, or a snapshot of it under vp run).
 export VERIF_ROOT="$(cd "$(dirname "${BASH_SOURCE[0]}")" && pwd)"
 cd "$VERIF_ROOT"
+# The tree under test: /repo, or a scratch worktree when VERIF_REPO is set
+# (then an alternative go.mod with the replace directive pointing there is used).
+export VERIF_REPO="${VERIF_REPO:-/repo}"
 export GOFLAGS=-mod=mod GOPROXY=off GOSUMDB=off GOTOOLCHAIN=local
 export GOCACHE=${GOCACHE:-/root/.cache/go-build}
 mkdir -p work bin
@@ -13,9 +16,16 @@ mkdir -p work bin
 # Overlay: inject hook files (build tag verif) into lox packages; /repo is untouched.
 cat > work/overlay.json <<JSON
 {"Replace": {
-  "/repo/internal/codegen/zz_verif_hook.go": "$VERIF_ROOT/hooks/codegen_hook.go"
+  "$VERIF_REPO/internal/codegen/zz_verif_hook.go": "$VERIF_ROOT/hooks/codegen_hook.go"
 }}
 JSON
+MODFLAG=""
+if [ "$VERIF_REPO" != "/repo" ]; then
+  sed "s|=> /repo|=> $VERIF_REPO|" go.mod > work/alt.mod
+  cp go.sum work/alt.sum
+  MODFLAG="-modfile=$VERIF_ROOT/work/alt.mod"
+  export GOFLAGS="$GOFLAGS $MODFLAG"
+fi
 BUILD="go build -tags verif -overlay $VERIF_ROOT/work/overlay.json"
 
 fail_build() {
